@@ -15,6 +15,7 @@ from noise.backends.default.ciphers import (  # type: ignore[import-untyped]
     CryptographyCipher,
 )
 from noise.connection import NoiseConnection  # type: ignore[import-untyped]
+from noise.exceptions import NoiseValueError  # type: ignore[import-untyped]
 from noise.state import CipherState  # type: ignore[import-untyped]
 
 from ..core import (
@@ -307,10 +308,19 @@ class APINoiseFrameHelper(APIFrameHelper):
         self._handle_error_and_close(exc)
 
     def _handle_handshake(self, msg: bytes) -> None:
-        if msg[0] != 0:
+        if not msg or msg[0] != 0:
             self._error_on_incorrect_preamble(msg)
             return
-        self._proto.read_message(msg[1:])
+        try:
+            self._proto.read_message(msg[1:])
+        except NoiseValueError as err:
+            # The handshake message is too short to contain the public key
+            self._handle_error_and_close(
+                HandshakeAPIError(
+                    f"{self._log_name}: Invalid handshake message: {err}"
+                )
+            )
+            return
         self._state = NOISE_STATE_READY
         noise_protocol = self._proto.noise_protocol
         self._decrypt_cipher = DecryptCipher(noise_protocol.cipher_state_decrypt)  # pylint: disable=no-member
